@@ -122,6 +122,10 @@ def texts(tier):
     for n in range(0, maxlen + 1):
         for cs in itertools.product(ALPHABET, repeat=n):
             yield 'short', ''.join(cs)
+    # long texts whose utf-8 size is far from their character count, ending in a recognisable tail
+    for body in (u'\xe9' * 9000, u'\u4e2d' * 6000, u'a' + u'\xe9\u4e2d' * 5000,
+                 u'Traceback (most recent call last):\n' + u''.join(u'  File "/proj/caf\xe9/m\xf6dule_%d.py", line %d, in f\xfcnction\n    x = y\n' % (k, k) for k in range(400))):
+        yield 'fixed', body + u'\nValueError: the very end \xe9\u4e2d ZQTAIL'
     for t in ['', ' ', '\n', '\n\n', 'no traceback here', 'a\x00b', '\x01\x02\x7f', u'\xe9' * 50, 'x' * 20000, 'Traceback (most recent call last):',
               'Traceback (most recent call last):\n', 'ValueError: x', '  File "a.py", line 1\n    x = (\n        ^\nSyntaxError: invalid syntax',
               '{', '{tb_str}', '{#parsed_err}{exc_type}{/parsed_err}', '{@eq key=1 value=1}x{/eq}', '{>flaw_tmpl/}', '{tb_str|s}', '{~lb}',
